@@ -418,6 +418,54 @@ def extract_trace(trace_file, tid):
     return res
 
 
+def inductive_suite(name, module, tier, params, cinit, tlc_cfg, extra_defs="", tlc_note="", safe="Safe"):
+    """Design-level and unbounded in the length of histories: <module>.tla's IndInv is inductive
+    (Apalache: Init => IndInv, IndInv /\\ Next => IndInv', IndInv => safety property) and TLC re-checks
+    Inv on a bounded instance.  This says nothing about the code by itself (the traces do that) and
+    is reported as a suite of its own; a solver that does not finish in time is recorded, not an error."""
+    import shutil
+    key = suite_key(name, params, 0, tier)
+    hit = cache_get(key)
+    if hit is not None:
+        hit["cache_hit"] = True
+        return hit
+    d = os.path.join(OUT, "cfg", "p%d" % os.getpid(), name)
+    os.makedirs(d, exist_ok=True)
+    shutil.copy(os.path.join(SPEC, module + ".tla"), d)
+    open(os.path.join(d, "MC_Ind.tla"), "w").write(
+        "---- MODULE MC_Ind ----\nEXTENDS %s\nConstInit == %s\n%s\n====\n" % (module, cinit, extra_defs))
+    open(os.path.join(d, "MC_Ind.cfg"), "w").write(
+        "SPECIFICATION Spec\n%s\nINVARIANT Inv\nINVARIANT %s\nCHECK_DEADLOCK FALSE\n" % (tlc_cfg, safe))
+    t0 = time.time()
+    steps = []
+    res = {"suite": name, "kind": "inductive invariant (Apalache) + bounded TLC", "params": params,
+           "cache_hit": False, "n_scripts": 0, "n_events": 0, "viol": [], "samples": []}
+    try:
+        md = os.path.join(OUT, "md", "ind%d" % os.getpid())
+        p = sh(["timeout", "300", "tlc", "-workers", "4", "-metadir", md, "-cleanup", "-noGenerateSpecTE",
+                "-config", "MC_Ind.cfg", "MC_Ind.tla"], cwd=d, timeout=330)
+        sh(["rm", "-rf", md])
+        ok = "Model checking completed. No error has been found." in p.stdout
+        st = tlc_stats(p.stdout) or {}
+        steps.append({"step": "TLC: Inv and %s on the bounded instance (%s)" % (safe, tlc_note), "ok": ok, **st})
+        if ok:
+            res["mc"] = st
+        for nm, args in (("Init => IndInv", ["--init=Init", "--inv=IndInv", "--length=0"]),
+                         ("IndInv /\\ Next => IndInv'", ["--init=IndInit", "--inv=IndInv", "--length=1"]),
+                         ("IndInv => " + safe, ["--init=IndInit", "--inv=" + safe, "--length=0"])):
+            p = sh(["timeout", "900", "apalache-mc", "check", "--cinit=ConstInit", "--out-dir=" + os.path.join(d, "_apalache-out")]
+                   + args + ["MC_Ind.tla"], cwd=d, timeout=930)
+            steps.append({"step": "Apalache: " + nm, "ok": "EXITCODE: OK" in p.stdout,
+                          "outcome": next((l.strip()[:40] for l in p.stdout.splitlines() if "The outcome is" in l), "no outcome (timeout / tool failure)")})
+    except ToolError as e:
+        steps.append({"step": "not completed", "ok": False, "outcome": str(e)[:200]})
+    res["wall_s"] = round(time.time() - t0, 1)
+    res["extra"] = {"steps": steps, "all_ok": all(x["ok"] for x in steps)}
+    shutil.rmtree(d, ignore_errors=True)
+    cache_put(key, res)
+    return res
+
+
 def run_until_violation(prop, thunks):
     """Run the suites of a check in order; once one of them has found a violation charged to
     this property (or a crash), the remaining ones are not run: the verdict is known."""
